@@ -94,3 +94,165 @@ Proof.
   rewrite (psum_ext (fun k => nth k (span_list lvs 0) 0) (fun k => nth (k - 0) (span_list lvs 0) 0)); [lia|].
   intros r lc k _ _ _. rewrite PeanoNat.Nat.sub_0_r. reflexivity.
 Qed.
+
+(* ------------------------------------------------------------------ *)
+(* the bound of a file *)
+Definition list_max (l : list N) : N := fold_right N.max 0 l.
+Lemma list_max_in x l : In x l -> x <= list_max l.
+Proof. induction l as [|y r IH]; intros []; cbn [list_max fold_right]; fold (list_max r); [subst; lia|specialize (IH H); lia]. Qed.
+Lemma list_max_nth l k : nth k l 0 <= list_max l.
+Proof. destruct (nth_in_or_default k l 0) as [H|H]; [apply list_max_in; exact H|rewrite H; lia]. Qed.
+
+Definition file_m (lvs : list lview) : N :=
+  list_max (flat_map (fun lv => flat_map (fun r => [tr_sp r + tr_len r; match tr_ml r with Some x => x | None => 0 end]) (lv_recs lv)) lvs).
+Definition file_SW (lvs : list lview) : N := list_max (flat_map (fun lv => map (fun r => stack_weight (tr_stk r)) (lv_recs lv)) lvs).
+Definition file_LV (lvs : list lview) : N := list_max (map lv_level lvs).
+Definition file_IB (lvs : list lview) : N := file_LV lvs + N.of_nat (S (length lvs)) * file_LV lvs.
+Definition file_CB (lvs : list lview) : N := (N.of_nat (S (length lvs)) + 1) * file_SW lvs.
+Definition file_span (lvs : list lview) : nat -> N := fun k => nth k (span_list lvs 0) 0.
+
+(* everything the search of a file can measure stays below this *)
+Definition unconstrained_bound (infos : list tokinfo) (lines : list lline) (indw contw : N) : N :=
+  let lvs := mk_lviews infos lines in
+  file_IB lvs * indw + file_CB lvs * contw + file_m lvs * list_max (span_list lvs 0).
+
+Theorem run_bounds_file W infos lines : parents_ok lines = true ->
+  let lvs := mk_lviews infos lines in
+  run_bounds W lvs (file_m lvs) (file_SW lvs) (file_LV lvs) (file_IB lvs) (file_CB lvs) (file_span lvs).
+Proof.
+  intros Hp lvs. constructor.
+  - intros i lv r Hi Hr. apply nth_error_In in Hi. repeat split.
+    + apply list_max_in. apply in_flat_map. exists lv. split; [exact Hi|]. apply in_flat_map. exists r. split; [exact Hr|left; reflexivity].
+    + intros x Hx. apply list_max_in. apply in_flat_map. exists lv. split; [exact Hi|]. apply in_flat_map. exists r. split; [exact Hr|right; left; rewrite Hx; reflexivity].
+    + apply list_max_in. apply in_flat_map. exists lv. split; [exact Hi|]. exact (in_map (fun r0 => stack_weight (tr_stk r0)) _ _ Hr).
+  - intros i lv Hi. apply nth_error_In in Hi. apply list_max_in. apply in_map. exact Hi.
+  - intros i lv Hi. apply span_list_ok; [exact (mk_lviews_wf infos lines Hp)|exact Hi].
+  - exact (mk_lviews_wf infos lines Hp).
+  - exact (mk_lviews_fun infos lines).
+Qed.
+
+(* the top-level calls of a phase satisfy the precondition of solve_unc *)
+Lemma cpre_top W infos lines i lv fd :
+  let lvs := mk_lviews infos lines in
+  nth_error lvs i = Some lv -> off fd = 0 ->
+  unconstrained_bound infos lines (w_indw W) (w_contw W) <= w_max W ->
+  cpre W (file_m lvs) (file_SW lvs) (file_LV lvs) (file_IB lvs) (file_CB lvs) (file_span lvs) (S (length lines)) i (lv_level lv, 0) fd.
+Proof.
+  intros lvs Hi Hoff Hb. pose proof (mk_lviews_length infos lines) as Hlen. fold lvs in Hlen.
+  assert (Hlv : lv_level lv <= file_LV lvs) by (apply list_max_in; apply in_map; eapply nth_error_In; exact Hi).
+  split; [split; cbn [fst snd]; unfold file_IB, file_CB; rewrite Hlen; lia|].
+  rewrite Hoff. unfold Wb, lws_len. cbn [fst snd]. unfold unconstrained_bound in Hb. fold lvs in Hb.
+  pose proof (list_max_nth (span_list lvs 0) i) as Hs. unfold file_span. nia.
+Qed.
+
+(* ------------------------------------------------------------------ *)
+(* (a) one phase of the wrapper under two settings that differ in the whitespace-unit widths *)
+Lemma filter_rev {A} (f : A -> bool) l : filter f (rev l) = rev (filter f l).
+Proof. induction l as [|x r IH]; [reflexivity|]. cbn [rev filter]. rewrite filter_app, IH. cbn [filter]. destruct (f x); [reflexivity|rewrite app_nil_r; reflexivity]. Qed.
+
+Lemma filter_all {A} (f : A -> bool) l : Forall (fun x => f x = true) l -> filter f l = l.
+Proof. induction 1 as [|x r Hx Hr IH]; [reflexivity|]. cbn [filter]. rewrite Hx, IH. reflexivity. Qed.
+
+Lemma plan_of_events_filter evs : plan_of_events (filter is_D evs) = plan_of_events evs.
+Proof. induction evs as [|e r IH]; [reflexivity|]. destruct e as [l o|t [[[f i] c]|] lll fst|n]; cbn [filter is_D plan_of_events]; rewrite IH; reflexivity. Qed.
+
+Lemma plan_of_events_erase evs : plan_of_events (map ev_erase evs) = plan_of_events evs.
+Proof. induction evs as [|e r IH]; [reflexivity|]. destruct e as [l o|t [[[f i] c]|] lll fst|n]; cbn [map ev_erase plan_of_events]; rewrite IH; reflexivity. Qed.
+
+Section Phase.
+Variables WA WB : wsettings.
+Hypothesis Hiter : w_iter WA = w_iter WB.
+Hypothesis Hbbb : w_bbb WA = w_bbb WB.
+Variable infos : list tokinfo.
+Variable lines : list lline.
+Hypothesis Hp : parents_ok lines = true.
+Hypothesis HbA : unconstrained_bound infos lines (w_indw WA) (w_contw WA) <= w_max WA.
+Hypothesis HbB : unconstrained_bound infos lines (w_indw WB) (w_contw WB) <= w_max WB.
+
+Let lvs := mk_lviews infos lines.
+Let fm := main_fuel WA.
+
+Lemma Hfm : main_fuel WB = fm.
+Proof. unfold fm, main_fuel. rewrite Hiter. reflexivity. Qed.
+
+Definition cbd (W : wsettings) (st : sst) : Prop := cache_bd W lvs (file_m lvs) (file_IB lvs) (file_CB lvs) (file_span lvs) st.
+
+(* the invariant of the two runs: sound and bounded caches, decision logs equal up to the measured lengths *)
+Definition PInv (stA stB : sst) : Prop :=
+  sound WA lvs fm stA /\ cbd WA stA /\ sound WB lvs fm stB /\ cbd WB stB /\ map ev_erase (Dlog stA) = map ev_erase (Dlog stB).
+
+Lemma PInv_init : PInv sst_init sst_init.
+Proof. split; [apply sound_init|]. split; [intros key v []|]. split; [apply sound_init|]. split; [intros key v []|reflexivity]. Qed.
+
+Lemma cbd_same W st st' : ss_cache st' = ss_cache st -> cbd W st -> cbd W st'.
+Proof. intros E H. unfold cbd, cache_bd. rewrite E. exact H. Qed.
+
+Lemma format_top_indep i lv stA stB : nth_error lvs i = Some lv -> PInv stA stB ->
+  PInv (format_top WA lvs (main_fuel WA) (S (length lines)) stA lv) (format_top WB lvs (main_fuel WB) (S (length lines)) stB lv).
+Proof.
+  intros Hi (HsA & HcA & HsB & HcB & Hlog). rewrite Hfm. fold fm. unfold format_top.
+  destruct (bid _); [split; [assumption|split; [assumption|split; [assumption|split; assumption]]]|].
+  set (fd := match lv_gtoks lv with g :: _ => if g =? 0 then FD_Continue 0 true else FD_Break | [] => FD_Break end).
+  assert (Hoff : off fd = 0) by (subst fd; destruct (lv_gtoks lv) as [|g ?]; [reflexivity|destruct (g =? 0); reflexivity]).
+  assert (Hfd : fd_sim fd fd) by (subst fd; destruct (lv_gtoks lv) as [|g ?]; [exact I|destruct (g =? 0); [reflexivity|exact I]]).
+  pose proof (mk_lviews_length infos lines) as Hlen. fold lvs in Hlen.
+  destruct (solve_width_independent WA WB lvs lvs fm _ _ _ _ _ _ _ _ _ _ _ _ Hiter Hbbb (mk_lviews_view_sim infos infos lines eq_refl)
+              (run_bounds_file WA infos lines Hp) (run_bounds_file WB infos lines Hp)
+              i lv lv (S (length lines)) stA stB (lv_level lv, 0) fd fd Hi Hi ltac:(rewrite Hlen; lia) Hfd HsA HcA HsB HcB
+              (cpre_top WA infos lines i lv fd Hi Hoff HbA) (cpre_top WB infos lines i lv fd Hi Hoff HbB)) as (E & S1 & C1 & S2 & C2).
+  pose proof (state_inv_solve (fun st' => Dlog st' = Dlog stA) (fun st0 l o H => H) (fun st0 k v H => H) (fun st0 H => H) WA lvs fm (S (length lines)) stA lv (lv_level lv, 0) fd eq_refl) as DA.
+  pose proof (state_inv_solve (fun st' => Dlog st' = Dlog stB) (fun st0 l o H => H) (fun st0 k v H => H) (fun st0 H => H) WB lvs fm (S (length lines)) stB lv (lv_level lv, 0) fd eq_refl) as DB.
+  destruct (solve WA lvs fm (S (length lines)) stA lv (lv_level lv, 0) fd) as [stA1 rA].
+  destruct (solve WB lvs fm (S (length lines)) stB lv (lv_level lv, 0) fd) as [stB1 rB]. cbn [fst snd] in *.
+  destruct rA as [sA|]; destruct rB as [sB|]; try discriminate.
+  - cbn [option_map] in E. injection E as E.
+    destruct (sst_log_fold (recon_events lvs sA (lv_gtoks lv)) stA1) as (LA1 & LA2).
+    destruct (sst_log_fold (recon_events lvs sB (lv_gtoks lv)) stB1) as (LB1 & LB2).
+    split; [eapply sound_same_cache; [exact LA2|exact S1]|]. split; [eapply cbd_same; [exact LA2|exact C1]|].
+    split; [eapply sound_same_cache; [exact LB2|exact S2]|]. split; [eapply cbd_same; [exact LB2|exact C2]|].
+    unfold Dlog. rewrite LA1, LB1, !filter_app, !filter_rev, !(filter_all _ _ (recon_all_D lvs _ _)), !map_app, !map_rev.
+    rewrite (recon_erase_eq lvs sA sB _ E). fold (Dlog stA1). fold (Dlog stB1). rewrite DA, DB, Hlog. reflexivity.
+  - split; [assumption|split; [assumption|split; [assumption|split; [assumption|]]]]. rewrite DA, DB. exact Hlog.
+Qed.
+
+Theorem wrap_phase_indep which stA stB : PInv stA stB -> PInv (wrap_phase WA infos lines which stA) (wrap_phase WB infos lines which stB).
+Proof.
+  intros H. unfold wrap_phase. fold lvs.
+  assert (Hgen : forall l sa sb, (forall lv, In lv l -> exists i, nth_error lvs i = Some lv) -> PInv sa sb ->
+            PInv (fold_left (fun st lv => if which lv then format_top WA lvs (main_fuel WA) (S (length lines)) st lv else st) l sa)
+                 (fold_left (fun st lv => if which lv then format_top WB lvs (main_fuel WB) (S (length lines)) st lv else st) l sb)).
+  { induction l as [|lv r IH]; intros sa sb Hin H0; [exact H0|]. cbn [fold_left]. apply IH; [intros lv' H'; apply Hin; right; exact H'|].
+    destruct (which lv); [|exact H0]. destruct (Hin lv (or_introl eq_refl)) as (i & Hi). exact (format_top_indep i lv sa sb Hi H0). }
+  apply Hgen; [|exact H]. intros lv Hin. apply In_nth_error. exact Hin.
+Qed.
+
+(* phase 1: same decision events up to the measured length, hence the same plan *)
+Corollary wrap_phase1_indep :
+  map ev_erase (Dlog (wrap_phase1 WA infos lines)) = map ev_erase (Dlog (wrap_phase1 WB infos lines)).
+Proof. exact (proj2 (proj2 (proj2 (proj2 (wrap_phase_indep lv_top sst_init sst_init PInv_init))))). Qed.
+
+Lemma plan_of_log st : plan_of_events (rev (ss_log st)) = plan_of_events (rev (map ev_erase (Dlog st))).
+Proof. unfold Dlog. rewrite <- map_rev, plan_of_events_erase, <- filter_rev, plan_of_events_filter. reflexivity. Qed.
+
+Corollary wrap_phase1_plan_indep :
+  plan_of_events (rev (ss_log (wrap_phase1 WA infos lines))) = plan_of_events (rev (ss_log (wrap_phase1 WB infos lines))).
+Proof. rewrite !plan_of_log, wrap_phase1_indep. reflexivity. Qed.
+End Phase.
+
+(* OptimisingLineFormatter::format without the string stage: the final token vector (counters included) is the same *)
+Theorem olf_model_phase1_indep rsA rsB WA WB lines l :
+  w_iter WA = w_iter WB -> w_bbb WA = w_bbb WB -> parents_ok lines = true ->
+  unconstrained_bound (map tokinfo_of l) lines (w_indw WA) (w_contw WA) <= w_max WA ->
+  unconstrained_bound (map tokinfo_of l) lines (w_indw WB) (w_contw WB) <= w_max WB ->
+  fst (fst (olf_model rsA WA false lines l)) = fst (fst (olf_model rsB WB false lines l))
+  /\ map ev_erase (filter is_D (snd (fst (olf_model rsA WA false lines l)))) = map ev_erase (filter is_D (snd (fst (olf_model rsB WB false lines l)))).
+Proof.
+  intros H1 H2 Hp HA HB. unfold olf_model. cbn [fst snd sst_log ss_log].
+  split.
+  - rewrite (wrap_phase1_plan_indep WA WB H1 H2 _ lines Hp HA HB). reflexivity.
+  - cbn [rev]. rewrite !filter_app, !filter_rev. cbn [filter is_D]. rewrite !app_nil_r, !map_rev.
+    fold (Dlog (wrap_phase1 WA (map tokinfo_of l) lines)). fold (Dlog (wrap_phase1 WB (map tokinfo_of l) lines)).
+    rewrite (wrap_phase1_indep WA WB H1 H2 _ lines Hp HA HB). reflexivity.
+Qed.
+
+Print Assumptions olf_model_phase1_indep.
